@@ -655,6 +655,11 @@ pub fn forge(d: &mut D) {
     for (cmd, data) in [(1u8, vec![0u8, 0x31]), (1, vec![3, 0x31]), (2, vec![]), (3, vec![]), (4, vec![0xFF]), (5, vec![]), (6, vec![1]), (7, vec![9])] {
         for b9 in 0..=255u16 {
             let mut q: Vec<u8> = vec![0x46, 0x0F, 0, 0x23, 0x01, 0x23, 0x11, 0xC8, 0x00, b9 as u8, cmd];
+            let mut data = data.clone();
+            if cmd == 1 {
+                // an EID that differs from the current one, so that a wrongly accepted assignment shows
+                data[1] = 1 + ((b9 * 7) % 250) as u8;
+            }
             q.extend_from_slice(&data);
             q.push(0);
             q[2] = (q.len() - 4) as u8;
